@@ -9,60 +9,6 @@
 // A combination of (cast form, target type) that is ILL-FORMED for the tree under test is never written down here: check.py compiles
 // this file once per exotic target type in PROBE mode (-DC06_PROBE_TARGET=id [-DC06_PROBE_FORM=f], -fsyntax-only) and hands the
 // outcome to the real build as -DC06_CAPS=<bit mask per target>; only combinations whose probe compiled are instantiated.
-#include <xtl/xany.hpp>
-
-#include <cstddef>
-#include <cstdint>
-#include <cstring>
-#include <type_traits>
-#include <typeinfo>
-#include <utility>
-
-struct CSel { int dummy; int member; int method(int x) { return x + member; } };
-
-// ---- what a cast form observed ---------------------------------------------------------------------------------------------
-struct Sink
-{
-    bool ran = false, success = false, threw = false, same_object = true, has_bytes = false;
-    std::uintptr_t addr = 0;          // where the form says the object is (pointer / reference forms)
-    unsigned char bytes[32];          // the object read through the form: by the form itself (value forms) or by the judge
-    std::size_t nbytes = 0;
-    template <class P> void pointer(P* p, bool same = true)
-    {
-        ran = true; success = p != nullptr; same_object = same;
-        static_assert(sizeof(P*) == sizeof(std::uintptr_t), "pointer size");
-        std::memcpy(&addr, &p, sizeof addr);   // works for pointers to functions too
-    }
-    // reference forms on a temporary copy: the referenced object dies with the copy, so its bytes are taken now - but only when the
-    // target type has the size the judge expects (the judge reads them only if the target type IS the stored type)
-    template <class P> void snapshot(P* p, std::true_type) { if (p && sizeof(P) <= sizeof bytes) { std::memcpy(bytes, const_cast<typename std::remove_cv<P>::type*>(p), sizeof(P)); nbytes = sizeof(P); has_bytes = true; } }
-    template <class P> void snapshot(P*, std::false_type) {}
-    void value(const void* v, std::size_t n) { ran = true; success = true; if (n <= sizeof bytes) { std::memcpy(bytes, v, n); nbytes = n; has_bytes = true; } }
-    void thrown() { ran = true; success = false; threw = true; }
-};
-
-// ---- the cast forms ----------------------------------------------------------------------------------------------------------
-enum { F_P, F_PC, F_PK, F_PNULL, F_PCNULL, F_R, F_CR, F_CCR, F_RR, F_RCR, F_V, F_CV, F_RV, F_COUNT };
-static const int F_FIRST_BY_VALUE = F_V;
-template <class U> using cref_t = typename std::add_lvalue_reference<typename std::add_const<U>::type>::type;
-template <class U> using ref_t = typename std::add_lvalue_reference<U>::type;
-template <class U> struct plain_object : std::integral_constant<bool, std::is_object<U>::value && !std::is_array<U>::value> {};
-
-template <int F> struct form;
-template <> struct form<F_P> { template <class U> static void run(xtl::any& q, Sink& s) { auto p = xtl::any_cast<U>(&q); s.pointer(p); } };
-template <> struct form<F_PC> { template <class U> static void run(xtl::any& q, Sink& s) { const xtl::any& cq = q; auto p = xtl::any_cast<U>(&cq); s.pointer(p); } };
-template <> struct form<F_PK> { template <class U> static void run(xtl::any& q, Sink& s) { auto p = xtl::any_cast<typename std::add_const<U>::type>(&q); s.pointer(p); } };
-template <> struct form<F_PNULL> { template <class U> static void run(xtl::any&, Sink& s) { auto p = xtl::any_cast<U>(static_cast<xtl::any*>(nullptr)); s.pointer(p); } };
-template <> struct form<F_PCNULL> { template <class U> static void run(xtl::any&, Sink& s) { auto p = xtl::any_cast<U>(static_cast<const xtl::any*>(nullptr)); s.pointer(p); } };
-template <> struct form<F_R> { template <class U> static void run(xtl::any& q, Sink& s) { try { ref_t<U> r = xtl::any_cast<ref_t<U> >(q); s.pointer(&r); } catch (const xtl::bad_any_cast&) { s.thrown(); } } };
-template <> struct form<F_CR> { template <class U> static void run(xtl::any& q, Sink& s) { try { cref_t<U> r = xtl::any_cast<cref_t<U> >(q); s.pointer(&r); } catch (const xtl::bad_any_cast&) { s.thrown(); } } };
-template <> struct form<F_CCR> { template <class U> static void run(xtl::any& q, Sink& s) { const xtl::any& cq = q; try { cref_t<U> r = xtl::any_cast<cref_t<U> >(cq); s.pointer(&r); } catch (const xtl::bad_any_cast&) { s.thrown(); } } };
-template <> struct form<F_RR> { template <class U> static void run(xtl::any& q, Sink& s) { xtl::any c(q); try { ref_t<U> r = xtl::any_cast<ref_t<U> >(std::move(c)); s.pointer(&r, false); s.snapshot(&r, plain_object<U>()); } catch (const xtl::bad_any_cast&) { s.thrown(); } } };
-template <> struct form<F_RCR> { template <class U> static void run(xtl::any& q, Sink& s) { xtl::any c(q); try { cref_t<U> r = xtl::any_cast<cref_t<U> >(std::move(c)); s.pointer(&r, false); s.snapshot(&r, plain_object<U>()); } catch (const xtl::bad_any_cast&) { s.thrown(); } } };
-template <> struct form<F_V> { template <class U> static void run(xtl::any& q, Sink& s) { try { typename std::remove_cv<U>::type v = xtl::any_cast<U>(q); s.value(&v, sizeof v); } catch (const xtl::bad_any_cast&) { s.thrown(); } } };
-template <> struct form<F_CV> { template <class U> static void run(xtl::any& q, Sink& s) { const xtl::any& cq = q; try { typename std::remove_cv<U>::type v = xtl::any_cast<U>(cq); s.value(&v, sizeof v); } catch (const xtl::bad_any_cast&) { s.thrown(); } } };
-template <> struct form<F_RV> { template <class U> static void run(xtl::any& q, Sink& s) { xtl::any c(q); try { typename std::remove_cv<U>::type v = xtl::any_cast<U>(std::move(c)); s.value(&v, sizeof v); } catch (const xtl::bad_any_cast&) { s.thrown(); } } };
-
 // ---- the target type alphabet:  O(id, object type)  E(id, array or function type: every use is decided by a capability probe) -----
 // (check.py reads the E lines of this table; ids are positions)
 #define C06_TARGETS_QUICK(O, E) \
@@ -185,9 +131,71 @@ template <> struct form<F_RV> { template <class U> static void run(xtl::any& q, 
 #endif
 #define C06_TARGETS(O, E) C06_TARGETS_QUICK(O, E) C06_TARGETS_17(O, E) C06_TARGETS_DEEP(O, E)
 
+
+#ifdef C06_LIST
+// LIST mode (g++ -E): check.py learns from the preprocessor which target ids are array / function types for this -std / tier
+#define C06_LIST_O(ID, ...)
+#define C06_LIST_E(ID, ...) @@EXOTIC ID
+C06_TARGETS(C06_LIST_O, C06_LIST_E)
+@@NTARGETS C06_NTARGETS
+#else
+#include <xtl/xany.hpp>
+
+#include <cstddef>
+#include <cstdint>
+#include <cstring>
+#include <type_traits>
+#include <typeinfo>
+#include <utility>
+
+struct CSel { int dummy; int member; int method(int x) { return x + member; } };
+
+// ---- what a cast form observed ---------------------------------------------------------------------------------------------
+struct Sink
+{
+    bool ran = false, success = false, threw = false, same_object = true, has_bytes = false;
+    std::uintptr_t addr = 0;          // where the form says the object is (pointer / reference forms)
+    unsigned char bytes[32];          // the object read through the form: by the form itself (value forms) or by the judge
+    std::size_t nbytes = 0;
+    template <class P> void pointer(P* p, bool same = true)
+    {
+        ran = true; success = p != nullptr; same_object = same;
+        static_assert(sizeof(P*) == sizeof(std::uintptr_t), "pointer size");
+        std::memcpy(&addr, &p, sizeof addr);   // works for pointers to functions too
+    }
+    // reference forms on a temporary copy: the referenced object dies with the copy, so its bytes are taken now - but only when the
+    // target type has the size the judge expects (the judge reads them only if the target type IS the stored type)
+    template <class P> void snapshot(P* p, std::true_type) { if (p && sizeof(P) <= sizeof bytes) { std::memcpy(bytes, const_cast<typename std::remove_cv<P>::type*>(p), sizeof(P)); nbytes = sizeof(P); has_bytes = true; } }
+    template <class P> void snapshot(P*, std::false_type) {}
+    void value(const void* v, std::size_t n) { ran = true; success = true; if (n <= sizeof bytes) { std::memcpy(bytes, v, n); nbytes = n; has_bytes = true; } }
+    void thrown() { ran = true; success = false; threw = true; }
+};
+
+// ---- the cast forms ----------------------------------------------------------------------------------------------------------
+enum { F_P, F_PC, F_PK, F_PNULL, F_PCNULL, F_R, F_CR, F_CCR, F_RR, F_RCR, F_V, F_CV, F_RV, F_COUNT };
+static const int F_FIRST_BY_VALUE = F_V;
+template <class U> using cref_t = typename std::add_lvalue_reference<typename std::add_const<U>::type>::type;
+template <class U> using ref_t = typename std::add_lvalue_reference<U>::type;
+template <class U> struct plain_object : std::integral_constant<bool, std::is_object<U>::value && !std::is_array<U>::value> {};
+
+template <int F> struct form;
+template <> struct form<F_P> { template <class U> static void run(xtl::any& q, Sink& s) { auto p = xtl::any_cast<U>(&q); s.pointer(p); } };
+template <> struct form<F_PC> { template <class U> static void run(xtl::any& q, Sink& s) { const xtl::any& cq = q; auto p = xtl::any_cast<U>(&cq); s.pointer(p); } };
+template <> struct form<F_PK> { template <class U> static void run(xtl::any& q, Sink& s) { auto p = xtl::any_cast<typename std::add_const<U>::type>(&q); s.pointer(p); } };
+template <> struct form<F_PNULL> { template <class U> static void run(xtl::any&, Sink& s) { auto p = xtl::any_cast<U>(static_cast<xtl::any*>(nullptr)); s.pointer(p); } };
+template <> struct form<F_PCNULL> { template <class U> static void run(xtl::any&, Sink& s) { auto p = xtl::any_cast<U>(static_cast<const xtl::any*>(nullptr)); s.pointer(p); } };
+template <> struct form<F_R> { template <class U> static void run(xtl::any& q, Sink& s) { try { ref_t<U> r = xtl::any_cast<ref_t<U> >(q); s.pointer(&r); } catch (const xtl::bad_any_cast&) { s.thrown(); } } };
+template <> struct form<F_CR> { template <class U> static void run(xtl::any& q, Sink& s) { try { cref_t<U> r = xtl::any_cast<cref_t<U> >(q); s.pointer(&r); } catch (const xtl::bad_any_cast&) { s.thrown(); } } };
+template <> struct form<F_CCR> { template <class U> static void run(xtl::any& q, Sink& s) { const xtl::any& cq = q; try { cref_t<U> r = xtl::any_cast<cref_t<U> >(cq); s.pointer(&r); } catch (const xtl::bad_any_cast&) { s.thrown(); } } };
+template <> struct form<F_RR> { template <class U> static void run(xtl::any& q, Sink& s) { xtl::any c(q); try { ref_t<U> r = xtl::any_cast<ref_t<U> >(std::move(c)); s.pointer(&r, false); s.snapshot(&r, plain_object<U>()); } catch (const xtl::bad_any_cast&) { s.thrown(); } } };
+template <> struct form<F_RCR> { template <class U> static void run(xtl::any& q, Sink& s) { xtl::any c(q); try { cref_t<U> r = xtl::any_cast<cref_t<U> >(std::move(c)); s.pointer(&r, false); s.snapshot(&r, plain_object<U>()); } catch (const xtl::bad_any_cast&) { s.thrown(); } } };
+template <> struct form<F_V> { template <class U> static void run(xtl::any& q, Sink& s) { try { typename std::remove_cv<U>::type v = xtl::any_cast<U>(q); s.value(&v, sizeof v); } catch (const xtl::bad_any_cast&) { s.thrown(); } } };
+template <> struct form<F_CV> { template <class U> static void run(xtl::any& q, Sink& s) { const xtl::any& cq = q; try { typename std::remove_cv<U>::type v = xtl::any_cast<U>(cq); s.value(&v, sizeof v); } catch (const xtl::bad_any_cast&) { s.thrown(); } } };
+template <> struct form<F_RV> { template <class U> static void run(xtl::any& q, Sink& s) { xtl::any c(q); try { typename std::remove_cv<U>::type v = xtl::any_cast<U>(std::move(c)); s.value(&v, sizeof v); } catch (const xtl::bad_any_cast&) { s.thrown(); } } };
+
 template <int ID> struct target;
-#define C06_DEF_O(ID, ...) template <> struct target<ID> { typedef __VA_ARGS__ type; static const bool exotic = false; static const char* name() { return #__VA_ARGS__; } };
-#define C06_DEF_E(ID, ...) template <> struct target<ID> { typedef __VA_ARGS__ type; static const bool exotic = true; static const char* name() { return #__VA_ARGS__; } };
+#define C06_DEF_O(ID, ...) template <> struct target<ID> { using type = __VA_ARGS__; static const bool exotic = false; static const char* name() { return #__VA_ARGS__; } };
+#define C06_DEF_E(ID, ...) template <> struct target<ID> { using type = __VA_ARGS__; static const bool exotic = true; static const char* name() { return #__VA_ARGS__; } };
 C06_TARGETS(C06_DEF_O, C06_DEF_E)
 // the E / O marking of the table is the language-level classification, nothing else
 #define C06_CHK(ID, ...) static_assert(target<ID>::exotic == (std::is_array<target<ID>::type>::value || std::is_function<target<ID>::type>::value), "E <=> array or function type");
@@ -276,13 +284,13 @@ template <int S> struct source;
         typedef std::decay<decltype((__VA_ARGS__))>::type stored; \
         static const bool empty = false; \
         static const char* text() { return TEXT; } \
-        static xtl::any make() { return xtl::any(__VA_ARGS__); } \
+        static void construct(void* where) { new (where) xtl::any(__VA_ARGS__); } \
         static void assign(xtl::any& a) { a = __VA_ARGS__; } \
         static stored value() { stored s = __VA_ARGS__; return s; } \
         C06_SRC_STD(__VA_ARGS__) \
     };
 #ifdef C06_STD_ANY
-#define C06_SRC_STD(...) static std::any make_std() { return std::any(__VA_ARGS__); } static void assign_std(std::any& a) { a = __VA_ARGS__; }
+#define C06_SRC_STD(...) static void construct_std(void* where) { new (where) std::any(__VA_ARGS__); } static void assign_std(std::any& a) { a = __VA_ARGS__; }
 #else
 #define C06_SRC_STD(...)
 #endif
@@ -319,10 +327,10 @@ template <> struct source<21>
     typedef void stored;
     static const bool empty = true;
     static const char* text() { return "nothing (an empty any)"; }
-    static xtl::any make() { return xtl::any(); }
+    static void construct(void* where) { new (where) xtl::any; }
     static void assign(xtl::any& a) { a = xtl::any(); }
 #ifdef C06_STD_ANY
-    static std::any make_std() { return std::any(); }
+    static void construct_std(void* where) { new (where) std::any; }
     static void assign_std(std::any& a) { a = std::any(); }
 #endif
 };
@@ -341,32 +349,41 @@ static const char* route_text(int r)
     return n[r];
 }
 template <class A, class Src> struct world_of;
-template <class Src> struct world_of<xtl::any, Src> { static xtl::any make() { return Src::make(); } static void assign(xtl::any& a) { Src::assign(a); } };
+template <class Src> struct world_of<xtl::any, Src> { static void construct(void* w) { Src::construct(w); } static void assign(xtl::any& a) { Src::assign(a); } };
 #ifdef C06_STD_ANY
-template <class Src> struct world_of<std::any, Src> { static std::any make() { return Src::make_std(); } static void assign(std::any& a) { Src::assign_std(a); } };
+template <class Src> struct world_of<std::any, Src> { static void construct(void* w) { Src::construct_std(w); } static void assign(std::any& a) { Src::assign_std(a); } };
 #endif
+// both objects are constructed IN PLACE by exactly the expression the route names (no copy / move / elision in between)
 template <class A, class Src>
-static void build(int route, A& q)
+struct Built
 {
     typedef world_of<A, Src> W;
-    A s = W::make();
-    switch (route)
+    alignas(16) unsigned char raw_s[sizeof(A)];
+    alignas(16) unsigned char raw_q[sizeof(A)];
+    A* s;
+    A* q;
+    explicit Built(int route)
     {
-    case 0: { A t = W::make(); q.swap(t); break; }           // q now owns what any(src) built (swap of an empty with a full one moves it)
-    case 1: W::assign(q); break;
-    case 2: q = 2.5; W::assign(q); break;
-    case 3: q = std::string(40, 'x'); W::assign(q); break;
-    case 4: { A c(s); q = std::move(c); break; }
-    case 5: { A c(std::move(s)); q = std::move(c); break; }
-    case 6: q = 2.5; q = s; break;
-    case 7: q = std::string(40, 'x'); q = std::move(s); break;
-    case 8: q = 2.5; q.swap(s); break;
-    case 9: s.swap(q); break;
-    default: { const A& cs = s; A c(std::move(cs)); q = std::move(c); break; }
+        W::construct(raw_s);
+        s = reinterpret_cast<A*>(raw_s);
+        switch (route)
+        {
+        case 0: W::construct(raw_q); q = reinterpret_cast<A*>(raw_q); break;
+        case 1: q = new (raw_q) A; W::assign(*q); break;
+        case 2: q = new (raw_q) A(2.5); W::assign(*q); break;
+        case 3: q = new (raw_q) A(std::string(40, 'x')); W::assign(*q); break;
+        case 4: q = new (raw_q) A(*s); break;
+        case 5: q = new (raw_q) A(std::move(*s)); break;
+        case 6: q = new (raw_q) A(2.5); *q = *s; break;
+        case 7: q = new (raw_q) A(std::string(40, 'x')); *q = std::move(*s); break;
+        case 8: q = new (raw_q) A(2.5); q->swap(*s); break;
+        case 9: q = new (raw_q) A; s->swap(*q); break;
+        default: { const A& cs = *s; q = new (raw_q) A(std::move(cs)); break; }
+        }
     }
-}
-// route 0 must not go through swap/move at all: the object queried is the very one the converting constructor filled
-template <class Src> struct direct { xtl::any q; direct() : q(Src::make()) {} };
+    ~Built() { q->~A(); s->~A(); }
+    Built(const Built&) = delete;
+};
 
 static long long g_evals = 0, g_expected_success = 0, g_skipped = 0, g_std_agree = 0;
 static std::string g_std = "c++14";
@@ -457,7 +474,10 @@ static void one_target(xtl::any& q, int route, const void* stored_bytes, const c
 }
 
 #ifdef C06_STD_ANY
-template <class U> static bool std_holds(std::any& sq) { return std::any_cast<U>(&sq) != nullptr; }
+// (a type no pointer can point to - a cv/ref-qualified function type - cannot even be asked for: nothing holds it)
+template <class U, class = void> struct std_asker { static bool holds(std::any&) { return false; } };
+template <class U> struct std_asker<U, decltype(void(static_cast<U*>(nullptr)))> { static bool holds(std::any& sq) { return std::any_cast<U>(&sq) != nullptr; } };
+template <class U> static bool std_holds(std::any& sq) { return std_asker<U>::holds(sq); }
 #endif
 
 template <class Src, int... ID>
@@ -488,17 +508,14 @@ static void one_source()
     const std::string stored_text = Src::empty ? "void" : typeid(Stored).name();
     for (int route = 0; route < NROUTES; ++route)
     {
-        direct<Src> d;
-        xtl::any built;
-        if (route != 0) build<xtl::any, Src>(route, built);
-        xtl::any& q = route == 0 ? d.q : built;
+        Built<xtl::any, Src> world(route);
+        xtl::any& q = *world.q;
         // has_value() / type() describe the held type
         if (q.has_value() == Src::empty) vf::violation("C06/cast-target/has_value", std::string("an any built from ") + Src::text() + " via " + route_text(route) + ": has_value() is " + (q.has_value() ? "true" : "false"), replay_args());
         if (!(q.type() == typeid(Stored))) vf::violation("C06/cast-target/type", std::string("an any built from ") + Src::text() + " via " + route_text(route) + ": type() is " + q.type().name() + ", expected the decayed type " + typeid(Stored).name(), replay_args());
 #ifdef C06_STD_ANY
-        std::any sq;
-        if (route == 0) sq = Src::make_std(); else build<std::any, Src>(route, sq);
-        void* sqp = &sq;
+        Built<std::any, Src> std_world(route);
+        void* sqp = std_world.q;
 #else
         void* sqp = nullptr;
 #endif
@@ -541,3 +558,4 @@ int main(int argc, char** argv)
     return 0;
 }
 #endif
+#endif   // C06_LIST
